@@ -137,11 +137,15 @@ func writeRestartOverlay(p *packages.Package) {
 			"\tcountChannel = make(chan int, cap(countChannel))\n" +
 			"\tc := countChannel\n" +
 			"\tsimrt.Go(\"file.countGenerator\", func() { countGenerator(c) })\n" +
-			"\treturn true\n}\n"
+			"\treturn true\n}\n\n" +
+			"// VerifSkipIDs consumes n ids: the process has been running for a while.\n" +
+			"func VerifSkipIDs(n int) {\n" +
+			"\tfor i := 0; i < n; i++ {\n\t\tsimrt.Recv(countChannel)\n\t}\n}\n"
 		rep.Counts["overlay.id-counter-restart"]++
 	} else {
 		src += "// VerifProcessRestart: no package-level state of the known shape to reset.\n" +
-			"func VerifProcessRestart() bool { return false }\n"
+			"func VerifProcessRestart() bool { return false }\n\n" +
+			"// VerifSkipIDs: nothing to skip.\nfunc VerifSkipIDs(n int) {}\n"
 		warnf("pkg/storage/file: countChannel/countGenerator not found in the expected shape; process restarts do not reset the id counter")
 	}
 	dir := filepath.Dir(p.CompiledGoFiles[0])
